@@ -531,6 +531,39 @@ def w_highlight(failure, tier):
     return dict(found=False, note='highlight: %d fragments over %d multi-byte documents x %d fragment sizes, and %d fragments over %d documents with tokens that end in non-word characters, are all well-formed' % (n, len(docs), len(sizes), n2, len(docs2)))
 
 
+# ---------------------------------------------------------------- U57 range buckets across segments
+def w_range_layout(failure, tier):
+    """range / date_range aggregations whose ranges share a key (the same label twice, or the same unkeyed from/to twice),
+    in one segment and spread over several: bucket i stands for range i of the request in every layout"""
+    add = {"numeric_fields": [{"name": "n", "i64": True, "fast": True, "stored": True}]}
+    vals = [1, 2, 3, 7, 8, 12, 13, 14, 15, 20]
+    docs = [{"_id": "d%d" % i, "body": "alpha", "n": v} for i, v in enumerate(vals)]
+    layouts = [[docs], [docs[:3], docs[3:6], docs[6:]], [docs[:5], docs[5:]], [[d] for d in docs]]
+    cases = [{"type": "range", "field": "n", "keyed": False, "ranges": [{"key": "x", "to": 5.0}, {"key": "x", "from": 5.0, "to": 10.0}, {"key": "y", "from": 10.0}]},
+             {"type": "range", "field": "n", "keyed": False, "ranges": [{"from": 0.0, "to": 10.0}, {"from": 0.0, "to": 10.0}, {"from": 10.0}]},
+             {"type": "range", "field": "n", "keyed": False, "ranges": [{"key": "a", "to": 5.0}, {"key": "b", "from": 5.0, "to": 10.0}, {"key": "a", "from": 10.0}]},
+             {"type": "range", "field": "n", "keyed": True, "ranges": [{"key": "lo", "to": 10.0}, {"key": "hi", "from": 10.0}]}]
+    n = 0
+    for agg in cases:
+        res = []
+        for lay in layouts:
+            r = dict(REQ_BASE, query={"type": "match_all"}, limit=1, aggs={"r": agg})
+            out, err = drive_search({"schema": None, "schema_add": add, "batches": lay, "requests": [r]})
+            if out is None or 'ok' not in out[0]:
+                return dict(found=False, note='search driver failed: %s' % (err or str(out)[:300]))
+            a = out[0]['ok']['aggregations']['r']
+            b = a.get('buckets')
+            if isinstance(b, dict):
+                b = [dict(v, key=k) for k, v in sorted(b.items())]
+            res.append((len(lay), [(_json.dumps(x.get('key'), sort_keys=True), x['doc_count']) for x in (b or [])]))
+            n += 1
+        if any(r[1] != res[0][1] for r in res):
+            return dict(found=True, cmd='%s search <<< hex(json)' % BIN, case='range-buckets-share-a-key',
+                        input='10 documents n = %s; %s' % (vals, _json.dumps(agg)),
+                        observed='; '.join('%d segment(s): %s' % r for r in res[1:]), expected='%s (the single-segment answer: one bucket per range of the request, in request order)' % res[0][1])
+    return dict(found=False, note='range buckets: %d (aggregation, layout) combinations give the single-segment answer' % n)
+
+
 # ---------------------------------------------------------------- U14 sort-plan fingerprint
 def w_plan_hash(failure, tier):
     """a sort cursor taken under one plan and replayed under a plan that differs in the direction of one key must be rejected"""
@@ -1883,7 +1916,12 @@ def w_terms_layout(failure, tier):
         d["n"] = {"a": 1, "b": 5, "c": 9, "d": 13, "e": 17}[d["tag"]]
     cases += [("histogram-min-doc-count-per-segment", {"type": "histogram", "field": "n", "interval": 2.0, "min_doc_count": 2}),
               ("rare-terms-max-doc-count-per-segment", {"type": "rare_terms", "field": "tag", "max_doc_count": 2}),
-              ("significant-terms-min-doc-count-per-segment", {"type": "significant_terms", "field": "tag", "min_doc_count": 2, "size": 10})]
+              ("significant-terms-min-doc-count-per-segment", {"type": "significant_terms", "field": "tag", "min_doc_count": 2, "size": 10}),
+              ("rare-terms-size-per-segment", {"type": "rare_terms", "field": "tag", "max_doc_count": 3, "size": 1}),
+              ("rare-terms-size-per-segment", {"type": "rare_terms", "field": "tag", "max_doc_count": 3, "size": 2}),
+              ("rare-terms-max-doc-count-per-segment", {"type": "rare_terms", "field": "tag", "max_doc_count": 1}),
+              ("significant-terms-size-per-segment", {"type": "significant_terms", "field": "tag", "size": 1}),
+              ("significant-terms-size-per-segment", {"type": "significant_terms", "field": "tag", "size": 2, "min_doc_count": 3})]
     n = 0
     for tag, agg in cases:
         if tag in skip:
@@ -2079,8 +2117,15 @@ GENERATORS = {
     ('U49', 'terms_finish_cut'): w_terms_layout,
     ('U49', 'terms_finalize_cut'): w_terms_layout,
     ('U50', 'histogram_finish_keep'): w_terms_layout,
-    ('U50', 'significant_finish_keep'): w_terms_layout,
-    ('U50', 'rare_finish_keep'): w_terms_layout,
+    ('U50', 'significant_finish_cut'): w_terms_layout,
+    ('U50', 'rare_finish_cut'): w_terms_layout,
+    ('U50', 'significant_merge_keep'): w_terms_layout,
+    ('U50', 'rare_merge_keep'): w_terms_layout,
+    ('U50', 'significant_finalize_cut'): w_terms_layout,
+    ('U56', 'rare_finalize_cut'): w_terms_layout,
+    ('U58', 'merge_range_bucket_lists'): w_range_layout,
+    ('U57', 'range_merge_arm'): w_range_layout,
+    ('U57', 'date_range_merge_arm'): w_range_layout,
     ('U48', 'composite_source_values'): w_composite,
     ('U7', 'composite_keep_after'): w_composite,
     ('U7', 'composite_page_cut'): w_composite,
